@@ -8,6 +8,8 @@ use crate::{
     simulation::puncturing::Puncturer,
     sparse::SparseMatrix,
 };
+#[cfg(ldpc_toolbox_verif)]
+use crate::verif_seam::std;
 use libc::size_t;
 use std::{
     convert::TryFrom,
